@@ -18,10 +18,12 @@ import Fbr.Lemmas.VfsInv
 import Fbr.Lemmas.VfsMap
 import Fbr.Lemmas.VfsPseudo
 import Fbr.Lemmas.VfsPersist
+import Fbr.Lemmas.VfsReattach
 import Fbr.Gen.AbiRust
 
 namespace Fbr.Thm.C19
 open Fbr.Vfs Fbr.Persist Fbr.Lemmas.VfsInv Fbr.Lemmas.VfsMap Fbr.Lemmas.VfsPseudo Fbr.Lemmas.VfsPersist
+open Fbr.Lemmas.VfsReattach
 
 /-- histories of a live VFS (mount / umount / init / destroy / requests) -/
 def liveOps (ops : List Op) : Prop := ∀ op ∈ ops, (match op with | .saveRestore _ => false | _ => true) = true
@@ -113,6 +115,65 @@ theorem future_mounts_same_indices (s s' t : State) (h : PInv s)
   unfold State.allocateFsIdx
   rw [ht1, hns, hloop]
   exact ⟨rfl, rfl⟩
+
+/-! ### the restored, re-attached instance is indistinguishable -/
+
+/-- every invariant the identity theorem needs holds after every live history -/
+theorem all_invariants_all_histories (opts : Opts) (ops : List Op) (hl : liveOps ops) :
+    Inv (after (State.new opts false) ops) ∧ MapInv (after (State.new opts false) ops) ∧
+    PInv (after (State.new opts false) ops) ∧ XInv (after (State.new opts false) ops) := by
+  suffices h : ∀ (ops : List Op) (s : State), liveOps ops → Inv s ∧ MapInv s ∧ PInv s ∧ XInv s →
+      Inv (after s ops) ∧ MapInv (after s ops) ∧ PInv (after s ops) ∧ XInv (after s ops) from
+    h ops _ hl ⟨inv_new opts false, mapInv_new opts false, pinv_new opts, xinv_new opts false⟩
+  intro ops
+  induction ops with
+  | nil => intro s _ h; exact h
+  | cons op rest ih =>
+    intro s hl ⟨hi, hm, hp, hx⟩
+    have hrest : liveOps rest := fun o ho => hl o (by simp [ho])
+    have h1 : Inv (step s op).1 ∧ MapInv (step s op).1 ∧ PInv (step s op).1 ∧ XInv (step s op).1 := by
+      cases op with
+      | mount b path map =>
+        exact ⟨mount_inv hi b path map, mount_mapInv hi hm b path map, mount_pinv hi hp b path map, mount_xinv hi hp hx b path map⟩
+      | umount path => exact ⟨umount_inv hi path, umount_mapInv hi hm path, umount_pinv hi hp path, umount_xinv hp hx path⟩
+      | init o => exact ⟨init_inv hi o, init_mapInv hm o, init_pinv hp o, init_xinv hx o⟩
+      | destroy => exact ⟨destroy_inv hi, destroy_mapInv hm, destroy_pinv hp, destroy_xinv hx⟩
+      | req r =>
+        simp only [step]
+        split <;> exact ⟨hi, hm, hp, hx⟩
+      | saveRestore m => have := hl (.saveRestore m) (by simp); simp at this
+    unfold after
+    cases hst : step s op with
+    | mk s' rc =>
+      obtain ⟨r, c⟩ := rc
+      rw [hst] at h1
+      cases r <;> first | exact ⟨hi, hm, hp, hx⟩ | exact ih s' hrest h1
+
+/-- saving, restoring into a fresh instance built with the same constructor options and
+    re-attaching the backends at their recorded indices gives back *the same state*: same mount
+    table (every old inode number routes to the corresponding backend), same pseudo tree, same
+    per-mount and global mappings, same options, same `next_super` / `next_inode`.
+    PARTIAL with respect to the property text in exactly the known-finding inputs: the hypothesis
+    `initialized = (in_opts ≠ 0)` excludes sessions negotiated with no flag bits / destroyed /
+    failed INIT (C19:initialized:*), "same constructor options" excludes the lost global mapping
+    (C19:global-map-not-restored), and `State.new _ false` excludes `remove_pseudo_root`
+    (C19:restore-fails:evicted-parent); counterexample theorems below. -/
+theorem restore_save_identity_partial (opts : Opts) (ops : List Op) (hl : liveOps ops)
+    (hinit : (after (State.new opts false) ops).initialized = decide ((after (State.new opts false) ops).opts.inOpts ≠ 0)) :
+    (saveRestore (after (State.new opts false) ops) .same).1 = after (State.new opts false) ops ∧
+    (saveRestore (after (State.new opts false) ops) .same).2.1 = .unit := by
+  obtain ⟨hi, hm, hp, hx⟩ := all_invariants_all_histories opts ops hl
+  exact saveRestore_identity hi hm hp hx hinit
+
+/-- ... hence the restored instance is a bisimulation partner of the original for every later
+    history (mount, umount, init, destroy, every request, further save/restores): all replies and
+    all backend call logs are equal, and mounts / pseudo directories created afterwards receive the
+    indices and numbers they would have received without the save/restore -/
+theorem restore_save_bisimilar_partial (opts : Opts) (ops : List Op) (hl : liveOps ops)
+    (hinit : (after (State.new opts false) ops).initialized = decide ((after (State.new opts false) ops).opts.inOpts ≠ 0))
+    (later : List Op) :
+    run (saveRestore (after (State.new opts false) ops) .same).1 later = run (after (State.new opts false) ops) later := by
+  rw [(restore_save_identity_partial opts ops hl hinit).1]
 
 /-! ### previous format version -/
 
